@@ -152,3 +152,22 @@ package federation
 //@   ensures berr == nil ==> result1 == nil && len(result0) == len(cl.Items) && (forall k int :: 0 <= k && k < len(cl.Items) ==> result0[k] == cl.Items[k].UUID)
 //@   ensures berr == nil ==> len(merged.Items) == ite(m0 == 0, len(cl.Items), m0 + len(cl.Items))
 //@   loop 1: invariant len(uuids) == $i && (forall k int :: 0 <= k && k < $i ==> uuids[k] == cl.Items[k].UUID) && berr == nil && len(merged.Items) == ite(m0 == 0, len(cl.Items), m0 + len(cl.Items))
+
+// The public List methods go through the generated fan-out method and nothing
+// else (no shortcut that would bypass the rejection rules, the routing by UUID
+// prefix or the ForwardedFor marking).
+//@ func Conn.CollectionList property C20
+//@   only calls: Conn.generated_CollectionList
+//@   calls Conn.generated_CollectionList#1: requires $0 == ctx && $1 == options
+//@ func Conn.ContainerList property C20
+//@   only calls: Conn.generated_ContainerList
+//@   calls Conn.generated_ContainerList#1: requires $0 == ctx && $1 == options
+//@ func Conn.ContainerRequestList property C20
+//@   only calls: Conn.generated_ContainerRequestList
+//@   calls Conn.generated_ContainerRequestList#1: requires $0 == ctx && $1 == options
+//@ func Conn.GroupList property C20
+//@   only calls: Conn.generated_GroupList
+//@   calls Conn.generated_GroupList#1: requires $0 == ctx && $1 == options
+//@ func Conn.SpecimenList property C20
+//@   only calls: Conn.generated_SpecimenList
+//@   calls Conn.generated_SpecimenList#1: requires $0 == ctx && $1 == options
